@@ -100,6 +100,10 @@ MUTANTS = [
 
 # weakened but still correct under the property (atomicity or validation alone suffices): must NOT alarm
 NOFALSE = [
+    # harmless since the temporary file is created exclusively (8926dad): the second writer falls back to memory
+    ("C16", "tmp-name-shared", "bisturi/codegen.py",
+     "        tmp_pathname = \"%s.%i.%08x.tmp\" % (\n            module_pathname, os.getpid(), random.getrandbits(32)\n        )\n",
+     "        tmp_pathname = module_pathname + '.tmp'\n"),
     ("C16", "only-importerror-tolerated", "bisturi/codegen.py",
      "        except Exception:\n            # half written, truncated, deleted in the meantime, ...\n            return None\n",
      "        except ImportError:\n            return None\n"),
@@ -135,10 +139,7 @@ def edits(entry):
 # `check sensitivity --hard --tier thorough` is the place for them
 HARD = [
     ("C16", "revert-F8", [("patch", "revert-F8.diff", None)]),
-    ("C16", "tmp-name-shared", "bisturi/codegen.py",
-     "        tmp_pathname = \"%s.%i.%08x.tmp\" % (\n            module_pathname, os.getpid(), random.getrandbits(32)\n        )\n",
-     "        tmp_pathname = module_pathname + '.tmp'\n"),
     ("C16", "in-place-write-with-validation", "bisturi/codegen.py",
-     "            with open(tmp_pathname, 'w') as module_file:\n                module_file.write(source_code)\n\n            os.replace(tmp_pathname, module_pathname)\n",
+     "            with open(tmp_pathname, 'x') as module_file:\n                tmp_is_ours = True\n                module_file.write(source_code)\n\n            os.replace(tmp_pathname, module_pathname)\n",
      "            with open(module_pathname, 'w') as module_file:\n                module_file.write(source_code)\n"),
 ]
